@@ -109,7 +109,13 @@ def gen_real_case(rng, cid, max_len=3, max_depth=2, allow=None, short_prob=0.0, 
         if nu > 0 and rng.random() < 0.12:
             Xfit = np.array(X, copy=True)
             Xfit[:, (1 if ep else 0) + ns:] = 0
-        return dict(cid=cid, chain=chain, ns=ns, nu=nu, ep=ep, X=X, Xfit=Xfit, mode=mode, w=w, dims=d)
+        from . import datapath as _dpm
+        pres = ['float', 'float', 'fortran', 'view'][cid % 4]
+        same = Xfit is X
+        X = _dpm.present(X, pres)
+        Xfit = X if same else _dpm.present(Xfit, pres)
+        return dict(cid=cid, chain=chain, ns=ns, nu=nu, ep=ep, X=X, Xfit=Xfit, mode=mode, w=w, dims=d,
+                    presentation=pres)
     raise RuntimeError('generator could not produce a case')
 
 
@@ -139,7 +145,8 @@ def desc(case, **kw):
              episode_feature=case['ep'], layout=case['mode'], min_samples=case['w'],
              X=np.asarray(case['X']).tolist(),
              fit_on_zero_inputs=bool(case.get('Xfit') is not case['X']),
-             cid=int(case.get('cid', 0)), refitted_after_other_layout=bool(case.get('prefit', False)))
+             cid=int(case.get('cid', 0)), refitted_after_other_layout=bool(case.get('prefit', False)),
+             array_presentation=case.get('presentation', 'float'))
     d.update(kw)
     return d
 
